@@ -128,3 +128,9 @@ def replay_announce(failure):
 
 AnnounceUnit.replay = lambda self, failure: replay_announce(failure)
 UNITS.append(AnnounceUnit())
+
+
+def extra_checks(tier, seed, pool):
+    """assumed contracts of repository-internal callees, compared with the real functions natively (contracts/conformance.py)"""
+    from . import conformance
+    return conformance.run(['time parsers'])
